@@ -356,6 +356,7 @@ theorem toBytes_eq (b : Bits) (m : Nat) (hm : b.size = 8 * m) : toBytes b = Spec
 
 end Model.Bits
 
+
 namespace Spec.Des
 theorem length_bitsOfNat (w n : Nat) : (bitsOfNat w n).length = w := by simp [bitsOfNat]
 
@@ -392,3 +393,136 @@ theorem bitsToBytes_bytesToBits (s : List Nat) (hs : ∀ b ∈ s, b < 256) : bit
     exact natOfBits_bitsOfNat _ (hs _ (List.getElem_mem h2))
 
 end Spec.Des
+namespace Spec.Des
+
+theorem bits8_roundtrip : ∀ a b c d e f g h : Bool,
+    bitsOfNat 8 (natOfBits [a, b, c, d, e, f, g, h]) = [a, b, c, d, e, f, g, h] := by decide
+
+theorem natOfBits8_lt : ∀ a b c d e f g h : Bool, natOfBits [a, b, c, d, e, f, g, h] < 256 := by decide
+
+theorem bitsOfNat_natOfBits (l : Bitstr) (hl : l.length = 8) : bitsOfNat 8 (natOfBits l) = l ∧ natOfBits l < 256 := by
+  match l, hl with
+  | [a, b, c, d, e, f, g, h], _ => exact ⟨bits8_roundtrip a b c d e f g h, natOfBits8_lt a b c d e f g h⟩
+
+theorem bitsToBytes_cons (l : Bitstr) (m : Nat) (hl : l.length = 8 * (m + 1)) :
+    bitsToBytes l = natOfBits (l.take 8) :: bitsToBytes (l.drop 8) := by
+  simp only [bitsToBytes, hl, List.length_drop]
+  have h1 : 8 * (m + 1) / 8 = m + 1 := by omega
+  have h2 : (8 * (m + 1) - 8) / 8 = m := by
+    have : 8 * (m + 1) - 8 = 8 * m := by omega
+    rw [this]; exact Nat.mul_div_cancel_left m (by decide)
+  rw [h1, h2, List.range_succ_eq_map, List.map_cons, List.map_map]
+  simp only [Nat.mul_zero, List.drop_zero, List.cons.injEq, true_and]
+  apply List.map_congr_left
+  intro i _
+  simp only [Function.comp, List.drop_drop]
+  have : 8 * i.succ = 8 + 8 * i := by omega
+  rw [this]
+
+theorem bytesToBits_bitsToBytes (l : Bitstr) (m : Nat) (hl : l.length = 8 * m) :
+    bytesToBits (bitsToBytes l) = l ∧ ∀ b ∈ bitsToBytes l, b < 256 := by
+  induction m generalizing l with
+  | zero =>
+    have : l = [] := List.length_eq_zero_iff.mp (by simpa using hl)
+    subst this; simp [bitsToBytes, bytesToBits]
+  | succ m ih =>
+    rw [bitsToBytes_cons l m hl]
+    have h8 : (l.take 8).length = 8 := by simp [hl]; omega
+    have hd : (l.drop 8).length = 8 * m := by simp [hl]; omega
+    obtain ⟨ih1, ih2⟩ := ih (l.drop 8) hd
+    constructor
+    · simp only [bytesToBits, List.flatMap_cons] at *
+      rw [ih1, (bitsOfNat_natOfBits _ h8).1, List.take_append_drop]
+    · intro b hb
+      rcases List.mem_cons.mp hb with h | h
+      · subst h; exact (bitsOfNat_natOfBits _ h8).2
+      · exact ih2 b h
+
+end Spec.Des
+
+namespace Model.Bits
+
+/-! ### composing two index selections -/
+theorem pick_pick_id (b : Bits) (hb : b.WF) (t1 t2 : List Nat)
+    (h : t2.map (fun x => t1[x]?) = (List.range b.size).map some) : pick (pick b t1) t2 = b := by
+  apply eq_of_bools (WF_pick _ _) hb
+  rw [bools_pick' _ (WF_pick _ _), bools_pick]
+  have : (fun x : Nat => (List.map (fun x => b.ival.testBit x) t1)[x]?.getD false)
+      = (fun o : Option Nat => (o.map fun x => b.ival.testBit x).getD false) ∘ (fun x : Nat => t1[x]?) := by
+    funext x; simp
+  rw [this, ← List.map_map, h, List.map_map]
+  rfl
+
+/-- the 64-bit block `A ‖ B` as the code assembles it: `C=Bits(0,64); C[0:32]=A; C[32:64]=B` -/
+def join (A B : Bits) : Bits := ((ofNatSz 0 64).putSlice 0 32 A).putSlice 32 64 B
+
+@[simp] theorem size_join (A B : Bits) : (join A B).size = 64 := rfl
+
+theorem bools_zero (n : Nat) : bools (ofNatSz 0 n) = List.replicate n false := by
+  apply List.ext_getElem?
+  intro i
+  rw [getElem?_bools]
+  by_cases h : i < n <;> simp [ofNatSz, h]
+
+theorem WF_join (A B : Bits) (hA : A.WF) (hAs : A.size = 32) (hB : B.WF) (hBs : B.size = 32) : (join A B).WF := by
+  have hA' : A.ival < 2 ^ (32 - 0) := by simpa [WF, hAs] using hA
+  have hB' : B.ival < 2 ^ (64 - 32) := by simpa [WF, hBs] using hB
+  exact WF_putSlice _ _ _ _ (WF_putSlice _ _ _ _ (WF_ofNatSz 0 64) (by decide) (by decide) hA') (by decide) (Nat.le_refl 64) hB'
+
+theorem bools_join (A B : Bits) (hA : A.WF) (hAs : A.size = 32) (hB : B.WF) (hBs : B.size = 32) :
+    bools (join A B) = bools A ++ bools B := by
+  have hA' : A.ival < 2 ^ (32 - 0) := by simpa [WF, hAs] using hA
+  have hB' : B.ival < 2 ^ (64 - 32) := by simpa [WF, hBs] using hB
+  unfold join
+  rw [bools_putSlice _ _ _ _ (by decide) (Nat.le_refl 64) hB', bools_putSlice _ _ _ _ (by decide) (by decide) hA',
+    bools_zero]
+  have e1 : bools A = (List.range (32 - 0)).map fun i => A.ival.testBit i := by simp [bools, hAs]
+  have e2 : bools B = (List.range (64 - 32)).map fun i => B.ival.testBit i := by simp [bools, hBs]
+  rw [← e1, ← e2]
+  have hl : (bools A).length = 32 := by simp [hAs]
+  simp [List.take_append_of_le_length, hl, List.drop_append_of_le_length]
+
+theorem slice_join_left (A B : Bits) (hA : A.WF) (hAs : A.size = 32) (hB : B.WF) (hBs : B.size = 32) :
+    (join A B).sliceFast 0 32 = A := by
+  apply eq_of_bools (WF_sliceFast _ _ _) hA
+  rw [bools_sliceFast _ _ _ (by simp), bools_join A B hA hAs hB hBs]
+  have hl : (bools A).length = 32 := by simp [hAs]
+  simp [List.take_append_of_le_length, hl]
+
+theorem slice_join_right (A B : Bits) (hA : A.WF) (hAs : A.size = 32) (hB : B.WF) (hBs : B.size = 32) :
+    (join A B).sliceFast 32 64 = B := by
+  apply eq_of_bools (WF_sliceFast _ _ _) hB
+  rw [bools_sliceFast _ _ _ (by simp), bools_join A B hA hAs hB hBs]
+  have hl : (bools A).length = 32 := by simp [hAs]
+  have hl2 : (bools B).length = 32 := by simp [hBs]
+  rw [List.drop_append_of_le_length (by omega)]
+  simp [hl, List.take_of_length_le, hl2]
+
+theorem join_slices (b : Bits) (hb : b.WF) (hs : b.size = 64) :
+    join (b.sliceFast 0 32) (b.sliceFast 32 64) = b := by
+  apply eq_of_bools (WF_join _ _ (WF_sliceFast _ _ _) rfl (WF_sliceFast _ _ _) rfl) hb
+  rw [bools_join _ _ (WF_sliceFast _ _ _) rfl (WF_sliceFast _ _ _) rfl,
+    bools_sliceFast _ _ _ (by omega), bools_sliceFast _ _ _ (by omega)]
+  have hl : (bools b).length = 64 := by simp [hs]
+  simp only [List.drop_zero, Nat.sub_zero]
+  rw [List.take_of_length_le (l := List.drop 32 b.bools) (by simp [hl])]
+  exact List.take_append_drop 32 _
+
+/-! ### bytes round trip on Bits -/
+theorem isBytes_toBytes (b : Bits) (m : Nat) (hm : b.size = 8 * m) : IsBytes (toBytes b) := by
+  rw [toBytes_eq b m hm]
+  exact (Spec.Des.bytesToBits_bitsToBytes (bools b) m (by simp [hm])).2
+
+theorem length_toBytes (b : Bits) : (toBytes b).length = (b.size + 7) / 8 := by simp [toBytes]
+
+theorem ofByteStr_toBytes (b : Bits) (hb : b.WF) (m : Nat) (hm : b.size = 8 * m) : ofByteStr (toBytes b) = b := by
+  apply eq_of_bools (WF_ofByteStr _ (isBytes_toBytes b m hm)) hb
+  rw [bools_ofByteStr _ (isBytes_toBytes b m hm), toBytes_eq b m hm]
+  exact (Spec.Des.bytesToBits_bitsToBytes (bools b) m (by simp [hm])).1
+
+theorem toBytes_ofByteStr (s : List Nat) (hs : IsBytes s) : toBytes (ofByteStr s) = s := by
+  rw [toBytes_eq _ s.length rfl, bools_ofByteStr s hs]
+  exact Spec.Des.bitsToBytes_bytesToBits s hs
+
+
+end Model.Bits
